@@ -15,7 +15,7 @@ Import ListNotations.
    quadratic_componentwise_simultaneous_refuted_example in Proofs/RootsRoundEx.v (b = 0: the two returned values do not sum to 0). *)
 From Coq Require Import Reals.
 From Coquelicot Require Import Complex.
-From OV Require Import Proofs.RootsRound Proofs.RootsRoundEx Proofs.RootsRoundFwd Proofs.RootsRoundCubic.
+From OV Require Import Proofs.RoundFlx Proofs.RootsRound Proofs.RootsRoundEx Proofs.RootsRoundFwd Proofs.RootsRoundCubic Proofs.RootsRoundFlx.
 
 (* degree 1: the returned value is the exact root of c1 x + c0 (1 + d), |d| <= eps (one negation, exact; one division) *)
 Theorem linear_root_backward_error : forall (eps : R) (O : RoundOps) (c0 c1 : C),
@@ -209,3 +209,37 @@ Example cubic_triple_branch_residual_nonvacuous :
   c_d0 (pert_ops e) a b c = RtoC 0 /\ c_d1 (pert_ops e) a b c d = RtoC 0 /\
   c_r (pert_ops e) a b = RtoC 1 /\ cval a b c d (RtoC 1) <> RtoC 0.
 Proof. exact cubic_triple_branch_nonvacuous_lemma. Qed.
+
+(* ---- an instance of std_model that REALLY ROUNDS, built from the model's own complex operators (Proofs/RootsRoundFlx.v):
+   [flx_ops fsqrt] = cadd / csub / cmul / cdiv / cmul_r of Model/Complex.v (the formulas of src/complex/mod.rs) over the
+   arithmetic AFlx of Proofs/RoundFlx.v (every real operation rounded to nearest-even at 53 bits, unbounded exponent; ux = 2^-53),
+   through the normwise bounds of Proofs/ComplexRound.v:  eps_flx = (3/2) kappa(2u + u^2) <= 8 ux  (the quotient is the worst
+   operator).  Complex::sqrt is libm-backed: it stays a function fsqrt with relative error eps_flx w.r.t. some square root. *)
+Theorem flx_std_model : forall fsqrt : C -> C,
+  (forall z : C, exists w : C, (w * w)%C = z /\ (Cmod (fsqrt z - w)%C <= eps_flx * Cmod w)%R) ->
+  (0 <= eps_flx <= / 100)%R /\ (eps_flx <= 8 * ux)%R /\ std_model eps_flx (flx_ops fsqrt).
+Proof. intros fsqrt. exact (flx_std_model_lemma fsqrt). Qed.
+Check flx_std_model : forall fsqrt : C -> C,
+  (forall z : C, exists w : C, (w * w)%C = z /\ (Cmod (fsqrt z - w)%C <= eps_flx * Cmod w)%R) ->
+  (0 <= eps_flx <= / 100)%R /\ (eps_flx <= 8 * ux)%R /\ std_model eps_flx (flx_ops fsqrt).
+Print Assumptions flx_std_model.
+
+(* hence, for the model's quadratic_solve over the model's complex operators over correctly rounded reals:
+   |a x^2 + b x + c| <= 128 * 2^-53 * (|a||x|^2 + |b||x| + |c|) for both returned values, every a <> 0, b, c *)
+Theorem quadratic_residual_flx : forall (fsqrt : C -> C) (a b c : C),
+  (forall z : C, exists w : C, (w * w)%C = z /\ (Cmod (fsqrt z - w)%C <= eps_flx * Cmod w)%R) -> a <> RtoC 0 ->
+  exists r0 r1 : C, poly_solve (RoundRAo eps_flx (flx_ops fsqrt)) [c; b; a] false = Ok ([r0; r1], []) /\
+    forall x : C, x = r0 \/ x = r1 ->
+      (Cmod (a * x * x + b * x + c)%C <= 128 * ux * (Cmod a * Cmod x * Cmod x + Cmod b * Cmod x + Cmod c))%R.
+Proof. intros fsqrt a b c. exact (quadratic_residual_flx_lemma fsqrt a b c). Qed.
+Check quadratic_residual_flx : forall (fsqrt : C -> C) (a b c : C),
+  (forall z : C, exists w : C, (w * w)%C = z /\ (Cmod (fsqrt z - w)%C <= eps_flx * Cmod w)%R) -> a <> RtoC 0 ->
+  exists r0 r1 : C, poly_solve (RoundRAo eps_flx (flx_ops fsqrt)) [c; b; a] false = Ok ([r0; r1], []) /\
+    forall x : C, x = r0 \/ x = r1 ->
+      (Cmod (a * x * x + b * x + c)%C <= 128 * ux * (Cmod a * Cmod x * Cmod x + Cmod b * Cmod x + Cmod c))%R.
+Print Assumptions quadratic_residual_flx.
+(* the exact principal square root is an admissible fsqrt, and the arithmetic really rounds: fl((1 + 0i) * (1/3)) <> 1/3 *)
+Example quadratic_residual_flx_nonvacuous :
+  (forall z : C, exists w : C, (w * w)%C = z /\ (Cmod (Csqrt z - w)%C <= eps_flx * Cmod w)%R) /\ RtoC 1 <> RtoC 0 /\
+  flx_scale (RtoC 1) (1 / 3)%R <> (RtoC 1 * RtoC (1 / 3)%R)%C.
+Proof. exact flx_nonvacuous. Qed.
